@@ -99,12 +99,11 @@ impl PixelDataReader for RleLosslessAdapter {
                     // MSB G channel: 5, 11, 17, ...
                     // LSB G channel: 4, 10, 16, ...
                     let frame_start = i * frame_size;
+                    // segments come most significant byte first,
+                    // the output is little endian
                     let start = frame_start
-                        + if samples_per_pixel == 3 {
-                            sample_number * bytes_per_sample + byte_offset
-                        } else {
-                            sample_number * bytes_per_sample + samples_per_pixel - byte_offset
-                        };
+                        + sample_number * bytes_per_sample
+                        + (bytes_per_sample - 1 - byte_offset);
 
                     let end = (i + 1) * frame_size;
                     for (decoded_index, dst_index) in (start..end)
@@ -202,11 +201,10 @@ impl PixelDataReader for RleLosslessAdapter {
                     .unwrap();
 
                 // Interleave pixels as described in the example above.
-                let start = if samples_per_pixel == 3 {
-                    sample_number * bytes_per_sample + byte_offset
-                } else {
-                    sample_number * bytes_per_sample + samples_per_pixel - byte_offset
-                };
+                // segments come most significant byte first,
+                // the output is little endian
+                let start =
+                    sample_number * bytes_per_sample + (bytes_per_sample - 1 - byte_offset);
 
                 let end = frame_size;
                 for (decoded_index, dst_index) in (start..end)
